@@ -5,6 +5,7 @@ package main
 import (
 	"encoding/json"
 	"fmt"
+	"math/big"
 	"os"
 	"regexp"
 	"sort"
@@ -156,8 +157,9 @@ func (n *node) runBlock(txs []pb.Transaction) []*pb.Receipt {
 // ---------------------------------------------------------------------------------------------
 
 type execEngine struct {
-	nodes []*node // replica 0 is the reference; others (C01) are fed the same blocks
-	sigOn bool
+	nodes    []*node // replica 0 is the reference; others (C01) are fed the same blocks
+	sigOn    bool
+	admInit  map[string]*big.Int // admin balances when the history starts (reported normalised)
 }
 
 func init() { engines["exec"] = func() engine { return &execEngine{} } }
@@ -230,6 +232,10 @@ func (e *execEngine) step(ws []string) string {
 				n.nonces[k] = v
 			}
 			e.nodes = append(e.nodes, n)
+		}
+		e.admInit = map[string]*big.Int{}
+		for _, a := range adminNames {
+			e.admInit[a] = e.nodes[0].ldg.Copy().GetBalance(acct(a).addr)
 		}
 		return fmt.Sprintf("ok h=%d", e.nodes[0].exec.VerifHeight())
 	case "block":
@@ -471,17 +477,28 @@ func blockObs(n *node, h uint64, txs []pb.Transaction) string {
 			cs = append(cs, k+":["+strings.Join(vs, ",")+"]")
 		}
 	}
-	var ts []string
+	// compared part: lists sorted (their order comes out of Go maps); the raw order is kept in the
+	// implementation-only part after "##" for the determinism monitor (C01)
+	var ts, tsRaw []string
 	for _, k := range sortedKeys(meta.TimeoutCounter) {
-		ts = append(ts, k+":["+strings.Join(meta.TimeoutCounter[k].Slice, ",")+"]")
+		tsRaw = append(tsRaw, k+":["+strings.Join(meta.TimeoutCounter[k].Slice, ",")+"]")
+		ts = append(ts, k+":["+strings.Join(sortedCopy(meta.TimeoutCounter[k].Slice), ",")+"]")
 	}
-	var ms []string
+	var ms, msRaw []string
 	for _, k := range sortedKeys(meta.MultiTxCounter) {
-		ms = append(ms, k+":["+strings.Join(meta.MultiTxCounter[k].Slice, ",")+"]")
+		msRaw = append(msRaw, k+":["+strings.Join(meta.MultiTxCounter[k].Slice, ",")+"]")
+		ms = append(ms, k+":["+strings.Join(sortedCopy(meta.MultiTxCounter[k].Slice), ",")+"]")
 	}
-	return fmt.Sprintf("h=%d rc=[%s] counter={%s} timeout={%s} multi={%s} ## hash=%s sroot=%s troot=%s rroot=%s toroot=%s",
+	return fmt.Sprintf("h=%d rc=[%s] counter={%s} timeout={%s} multi={%s} ## rawtimeout={%s} rawmulti={%s} hash=%s sroot=%s troot=%s rroot=%s toroot=%s",
 		h, strings.Join(rc, " "), strings.Join(cs, ";"), strings.Join(ts, ";"), strings.Join(ms, ";"),
+		strings.Join(tsRaw, ";"), strings.Join(msRaw, ";"),
 		short(blk.BlockHash), short(blk.BlockHeader.StateRoot), short(blk.BlockHeader.TxRoot), short(blk.BlockHeader.ReceiptRoot), short(blk.BlockHeader.TimeoutRoot))
+}
+
+func sortedCopy(l []string) []string {
+	c := append([]string(nil), l...)
+	sort.Strings(c)
+	return c
 }
 
 func short(h *types.Hash) string {
@@ -550,7 +567,13 @@ func (e *execEngine) query(ws []string) string {
 		return fmt.Sprintf("ic=%s rc=%s sic=%s src=%s", fmtCounter(ic.InterchainCounter), fmtCounter(ic.ReceiptCounter),
 			fmtCounter(ic.SourceInterchainCounter), fmtCounter(ic.SourceReceiptCounter))
 	case "bal":
-		return n.ldg.Copy().GetBalance(resolveAddr(ws[1])).String()
+		b := n.ldg.Copy().GetBalance(resolveAddr(ws[1]))
+		if init, ok := e.admInit[ws[1]]; ok {
+			// admins: normalised to the genesis balance at the start of the history
+			g, _ := new(big.Int).SetString(mkConfig(false, "parallel").Genesis.Balance, 10)
+			b = new(big.Int).Add(new(big.Int).Sub(b, init), g)
+		}
+		return b.String()
 	case "nonce":
 		return fmt.Sprint(n.ldg.Copy().GetNonce(resolveAddr(ws[1])))
 	case "svc":
